@@ -263,7 +263,7 @@ class JsonSchemaParser:
                 prop_schema = prop
             attname = prop_schema.get('x-var-name') or key
             if not valid_attr(attname) or attname in attrs or hasattr(self.object_base_cls, attname):
-                attname = self.get_attname(attname, excludes=list(attrs) + dir(self.object_base_cls))
+                attname = self.get_attname(attname, excludes=list(attrs) + list(properties) + dir(self.object_base_cls))
             alias = None
             if attname != key:
                 alias = key
